@@ -471,8 +471,8 @@ def run(ctx):
             ctx.require("oracle_evaluations", 1)
             return
     stats = {}
-    t_core = ctx.pick(13, 160)
-    t_end = ctx.pick(25, 420)
+    t_core = ctx.pick(9, 160)
+    t_end = ctx.pick(18, 420)
 
     def perturbed(wl, n):
         for _ in range(n):
